@@ -46,3 +46,17 @@ Proof.
          {| sl_devices := []; sl_updating := true; sl_events := true |}.
   split; [intros e [<-|[]]; reflexivity|]. vm_compute. repeat split.
 Qed.
+
+(* /devices: the unrepaired Slave kept `listen_enabled` as it was given - None when POST /devices {poll_interval: 30} did not state it -
+   and GET /devices answered null; that entry fails the per-entry schema of PUT /devices (`listen_enabled` must be a boolean): the
+   hub's own backup is refused and no device is left.  Replayed on the real code: corpus/C20/slave-polled-listen-not-stated.json;
+   repair: fixes/C20-slave-listen-enabled-boolean.diff (the device keeps a boolean) *)
+Lemma C20_old_slave_listen_null_backup_refused :
+  let old_get_answer := [("enabled", JBool true); ("name", JStr "meter"); ("scheme", JStr "http"); ("host", JStr "meter.local");
+                         ("port", JNum 320); ("path", JStr "/"); ("admin_password_hash", JStr empty_hash); ("poll_interval", JNum 120);
+                         ("listen_enabled", JNull); ("last_sync", JNum (-4)); ("online", JBool false); ("provisioning", JList []);
+                         ("attrs", JObj [("name", JStr "meter"); ("flags", JList [JStr "expressions"])])] in
+  forall reach s2,
+    snd (put_slave_devices reach [old_get_answer] s2) = Some (0, "invalid-field")
+    /\ sl_devices (fst (put_slave_devices reach [old_get_answer] s2)) = [].
+Proof. intros a reach s2. split; reflexivity. Qed.
